@@ -649,7 +649,7 @@ func (fx *FnExec) execInstr(st *State, in ssa.Instruction) {
 			z := e.fl.zero(e.c, at.Elem())
 			for i := range el {
 				k := e.keyElem(at.Elem(), i)
-				e.heapWrite(st, k, store(e.heapGet(st, k), arr, fmt.Sprintf("((as const %s) %s)", arrSort(SInt, el[i].Sort), z[i])), arr)
+				e.heapWrite(st, k, store(e.heapGet(st, k), arr, e.constArray(arrSort(SInt, el[i].Sort), z[i])), arr)
 			}
 			fx.setReg(st, in, &Val{L: []string{arr}})
 			return
@@ -835,7 +835,7 @@ func (fx *FnExec) execInstr(st *State, in ssa.Instruction) {
 		z := e.fl.zero(e.c, et)
 		for i := range el {
 			k := e.keyElem(et, i)
-			e.heapWrite(st, k, store(e.heapGet(st, k), arr, fmt.Sprintf("((as const %s) %s)", arrSort(SInt, el[i].Sort), z[i])), arr)
+			e.heapWrite(st, k, store(e.heapGet(st, k), arr, e.constArray(arrSort(SInt, el[i].Sort), z[i])), arr)
 		}
 		fx.setReg(st, in, &Val{L: []string{arr, "0", ln}})
 	case *ssa.MakeClosure:
@@ -1759,4 +1759,16 @@ func (fx *FnExec) raiseCondFlag(st *State, loc *Loc) {
 			st.heap[e.keyCondFlag(lockClass)] = "true"
 		}
 	}
+}
+
+// constArray: the array that maps every index to zero. cvc5 only accepts values in (as const ...), so for zero
+// terms that are uninterpreted constants a declared array with a defining axiom is used instead.
+func (e *Engine) constArray(sort Sort, zero string) string {
+	if isNumLit(zero) || zero == "true" || zero == "false" || strings.HasPrefix(zero, "(") || strings.HasPrefix(zero, "\"") {
+		return fmt.Sprintf("((as const %s) %s)", sort, zero)
+	}
+	name := e.c.constant("zeroarr_"+smtName(sort), sort)
+	ks, _ := arrayKeySort(sort)
+	e.c.axiom("zeroarr:"+name, fmt.Sprintf("(forall ((i!q %s)) (! (= (select %s i!q) %s) :pattern ((select %s i!q))))", ks, name, zero, name), name)
+	return name
 }
